@@ -158,6 +158,9 @@ type Config struct {
 type Violation struct {
 	Finding
 	Path []string
+	// PreConfirmed: established by the explorer itself on several instances (see the warm-vs-fresh comparison);
+	// not subject to the linear-replay confirmation
+	PreConfirmed bool `json:",omitempty"`
 }
 
 // Result of one exploration.
@@ -260,12 +263,12 @@ func (x *explorer) report(fs []Finding, path []string) {
 		p := append([]string{}, path...)
 		if MatchKnown(x.cfg.Known, f.Sig) != nil {
 			if old, ok := x.known[f.Sig]; !ok || len(p) < len(old.Path) {
-				x.known[f.Sig] = Violation{f, p}
+				x.known[f.Sig] = Violation{Finding: f, Path: p}
 			}
 			continue
 		}
 		if old, ok := x.viol[f.Sig]; !ok || len(p) < len(old.Path) {
-			x.viol[f.Sig] = Violation{f, p}
+			x.viol[f.Sig] = Violation{Finding: f, Path: p}
 		}
 		if len(x.viol) >= x.cfg.MaxViolations {
 			x.stop.Store(true)
@@ -494,7 +497,30 @@ func Explore(cfg Config, mk func() (*Env, Driver)) Result {
 						return
 					}
 					if h := x.canon(e, d, s); h != t.hash {
-						x.fail(fmt.Sprintf("prefix replay of %v reached a different state on a second instance (harness nondeterminism)", t.path))
+						// Two instances executed the same op path and disagree. Tie-break on two brand-new instances:
+						// if those agree with each other, the disagreeing instance is one that had executed other
+						// things before - the implementation keeps state outside the stores; if they disagree too,
+						// the harness itself is not deterministic.
+						e1, d1 := mk()
+						e2, d2 := mk()
+						s1, _, err1 := ReplayPath(e1, d1, t.path)
+						s2, _, err2 := ReplayPath(e2, d2, t.path)
+						if err1 != nil || err2 != nil || x.canon(e1, d1, s1) != x.canon(e2, d2, s2) {
+							x.fail(fmt.Sprintf("prefix replay of %v reached a different state on a second instance (harness nondeterminism)", t.path))
+							return
+						}
+						prop := d.ID()
+						if i := strings.Index(prop, "/"); i > 0 {
+							prop = prop[:i]
+						}
+						x.mu.Lock()
+						sig := prop + "/outcome-depends-on-earlier-executions-of-the-process"
+						if _, ok := x.viol[sig]; !ok {
+							x.viol[sig] = Violation{Finding: F(sig, "the op path %v leads to one state on application instances that executed nothing else (two fresh instances agree) and to another on an instance that had executed other paths before: the implementation keeps state outside the stores (a cache that survives discarded branches / rolled-back transactions)", t.path),
+								Path: append([]string{"<warm-vs-fresh>"}, t.path...), PreConfirmed: true}
+						}
+						x.mu.Unlock()
+						x.stop.Store(true)
 						return
 					}
 					x.dfs(e, d, s, t.path, 0, nil)
